@@ -29,7 +29,7 @@ func TestMain(m *testing.M) {
 	gen.Quiet()
 	ev.MustHit("restart-in-history", "pruning-config", "block-with-uncle", "failing-tx-in-block", "fork-crossing-block", "reorg-during-history", "batch>1",
 		"corrupt:root", "corrupt:receipthash", "corrupt:bloom", "corrupt:gasused", "corrupt:txhash", "corrupt:unclehash", "corrupt:body-drop-tx", "corrupt:body-dup-tx",
-		"corrupt:body-swap-tx", "corrupt:body-add-uncle", "corrupt:body-drop-uncle", "corrupt:txhash-recomputed-root-stale", "commitments-recomputed", "contract-executing-tx", "corrupt-overtaking", "overtaking-branch-was-unexecuted", "forked-deployments", "same-address-different-code-on-branches")
+		"corrupt:body-swap-tx", "corrupt:body-add-uncle", "corrupt:body-drop-uncle", "corrupt:txhash-recomputed-root-stale", "commitments-recomputed", "contract-executing-tx", "corrupt-overtaking", "overtaking-branch-was-unexecuted", "forked-deployments", "forked-ancestry", "same-address-different-code-on-branches")
 	ev.Main(m, ev.Config{
 		Property: "C01",
 		Level:    "exploration",
@@ -250,9 +250,19 @@ func TestImportIsDeterministic(t *testing.T) {
 // that address (code size, code, storage) follow on every branch: results must
 // not depend on what the node executed before on another branch.
 func TestForkedDeployments(t *testing.T) {
-	ev.Check(t, ev.N(100, 1500), func(t *rapid.T) {
-		importIsDeterministic(t, gen.TreeOpts{MaxBranches: 3, MaxDepth: 5, MaxTxs: 3, MinMain: 2, Senders: 1,
-			Kinds: []string{"create", "create", "codesize", "codesize", "codesize", "touch-created", "touch-created", "store-set", "transfer", "blockhash", "blockhash", "blockhash"}}, "forked-deployments")
+	ev.Check(t, ev.N(70, 1500), func(t *rapid.T) {
+		importIsDeterministic(t, gen.TreeOpts{MaxBranches: 3, MaxDepth: 4, MaxTxs: 3, MinMain: 2, Senders: 1,
+			Kinds: []string{"create", "create", "codesize", "codesize", "codesize", "touch-created", "touch-created", "store-set", "transfer"}}, "forked-deployments")
+	})
+}
+
+// TestForkedAncestry: the same oracle on short trees whose transactions read
+// the executing block's own ancestry (BLOCKHASH at generated depths): on
+// competing branches the answer differs, whatever the node executed before.
+func TestForkedAncestry(t *testing.T) {
+	ev.Check(t, ev.N(70, 1500), func(t *rapid.T) {
+		importIsDeterministic(t, gen.TreeOpts{MaxBranches: 3, MaxDepth: 5, MaxTxs: 2, MinMain: 2, Rivals: true,
+			Kinds: []string{"blockhash", "blockhash", "blockhash", "transfer", "store-set"}}, "forked-ancestry")
 	})
 }
 
